@@ -88,8 +88,11 @@ def gen_domain(rng, n):
         K.append([t, 3 if t == 'e' else (rng.randint(2, 3) if t == 'S' else rng.randint(1, 2))])
     rows = sum(l for _, l in K)
     A = [[frac_str(F(rng.choice([0, 0, 1, -1, 2, F(1, 2)]))) for _ in range(N)] for _ in range(rows)]
-    b = [frac_str(F(rng.choice([0, 1, 2, 3, -1]))) for _ in range(rows)]
-    return {'A': A, 'b': b, 'K': K, 'N': N}
+    b = [frac_str(F(rng.choice([0, 1, 2, 3, -1, F(1, 2), F(3, 2)]))) for _ in range(rows)]
+    d = {'A': A, 'b': b, 'K': K, 'N': N}
+    if all(F(x).denominator == 1 for r in A for x in r) and rng.random() < 0.5:
+        d['intA'] = True       # the user hands over an INTEGER matrix (next to a float b)
+    return d
 
 
 def box_domain(n, lo=-1, hi=1):
@@ -198,6 +201,8 @@ def _build(inst, settings, presolve_log=None):
     if inst['X'] is not None:
         d = inst['X']
         A = np.array([[float(F(x)) for x in r] for r in d['A']], dtype=float).reshape(len(d['b']), d['N'])
+        if d.get('intA'):
+            A = A.astype(int)
         bb = np.array([float(F(x)) for x in d['b']], dtype=float)
         X = SigDomain(n, AbK=(A, bb, [Cone(t, l) for t, l in d['K']]), check_feas=False)
     b.X = X
